@@ -246,6 +246,7 @@ def run_verus(prop, tier, seed=0, repo=None):
         # it implies later in the same function.  Failed `assert(..) /*OB:..*/` statements are therefore blanked out and
         # the unit is checked again (at most 4 rounds); failures of all rounds are reported.
         failed = {}   # obligation label -> (detail, props)
+        hints_dropped = []
         canary_failed = False
         canaries_failed = set()
         rejected = None
@@ -281,7 +282,7 @@ def run_verus(prop, tier, seed=0, repo=None):
                         return name, props
                 return None, None
 
-            new_assert_lines = []
+            new_assert_lines, hint_lines = [], []
             for e in errors:
                 cand = e['lines'] + secondary_lines(e['text'])
                 ob, ob_line = None, None
@@ -304,6 +305,13 @@ def run_verus(prop, tier, seed=0, repo=None):
                         # Verus still ASSUMES that lemma where it is called, so nothing this run reports can be trusted - machinery, not a verdict
                         rejected = 'a lemma or spec item of the unit itself failed to verify (not a verdict): %s' % e['text'][:700]
                         break
+                    if e['kind'].startswith('assertion failed') and re.match(r'^assert\(.*\)(\s*by\s*\(.*\))?\s*;$', src_line) and '/*OB:' not in src_line:
+                        # a generated PROOF HINT (an unmarked assert on its own line) did not verify.  A hint is a step of my proof,
+                        # not an obligation of the property: drop it and check again - the obligations it was meant to help
+                        # (invariants, postconditions, preconditions of primitives) are then decided without it
+                        hint_lines.append(prim_line)
+                        hints_dropped.append('%s: %s' % (fname, re.sub(r'\s+', ' ', src_line)[:100]))
+                        continue
                     kind = re.sub(r'[^a-z]+', '-', e['kind'].lower()).strip('-')[:40]
                     callee = next((p for p in PRIMS if '.%s(' % p in src_line or ' %s(' % p in src_line), None)
                     label = '%s.%s@%s' % (fname or 'unit', ('pre.' + callee) if (callee and 'precondition' in e['kind']) else kind, re.sub(r'\s+', ' ', src_line)[:70])
@@ -318,11 +326,16 @@ def run_verus(prop, tier, seed=0, repo=None):
                     failed[ob[0]] = (e['text'][:1500], ob[1] or (fprops or u.PROPS))
                     if ob_line and re.search(r'\bassert\(', glines[ob_line - 1]) and 'assert(false)' not in glines[ob_line - 1]:
                         new_assert_lines.append(ob_line)
-            if rejected or not new_assert_lines:
+            if rejected or not (new_assert_lines or hint_lines):
                 break
             for ln in new_assert_lines:
                 glines[ln - 1] = re.sub(r'assert\(.*\)\s*/\*OB:', '/* unmasked in a later round */ /*XB:', glines[ln - 1])
+            for ln in hint_lines:
+                glines[ln - 1] = '/* proof hint dropped: it did not verify */'
             text = '\n'.join(glines)
+        else:
+            if hint_lines and not failed:
+                rejected = 'proof hints kept failing after 4 rounds (a proof step, not an obligation): %s' % hints_dropped[-1]
         if rejected:
             vr.undecided.append('unit %s: %s' % (u.NAME, rejected))
             continue
@@ -377,6 +390,8 @@ def run_verus(prop, tier, seed=0, repo=None):
         vr.assumption_scan[u.NAME] = {k: len(re.findall(k, body_part)) for k in (r'\bassume\(', r'\badmit\(', r'external_body', r'assume_specification', r'verifier::external')}
         if any(vr.assumption_scan[u.NAME].values()):
             vr.undecided.append('unit %s: assumption scan found assume/admit/external_body outside the prelude' % u.NAME)
+        if hints_dropped:
+            vr.details.setdefault('proof_hints_dropped', []).extend('%s: %s' % (u.NAME, h) for h in hints_dropped)
         vr.vacuity[u.NAME] = {'canary_failed_as_required': True, 'per_function_reachability_canaries_failed_as_required': len(all_canaries), 'verified_functions': res.get('verified'), 'verus_errors': res.get('errors'), 'markers_for_this_property': n_markers}
         log('verus unit %s: verified=%s errors=%s wall=%.1fs' % (u.NAME, res.get('verified'), res.get('errors'), time.time() - t0))
     vr.cmd = '; '.join(cmds)
